@@ -76,6 +76,9 @@ def make_registry(skip_mode=False):
     for q in ("_serialize_value", "_get_group", "_get_array", "_is_autoserialize_instance", "_fix_torch_module_sets",
               "_convert_string_to_path_if_needed", "_is_numeric_scalar"):
         reg.inline.add(f"{AS}.{q}")
+    # repository functions are never executed natively (they would touch the REAL file system instead of the ghost one):
+    # a callee without contract / inline permission is interpreted in place by the engine
+    reg.strict_calls = True
     _REG["reg"] = reg
     return reg
 
@@ -382,6 +385,10 @@ def equiv(l, o, exp, pre=""):
             if isinstance(l, Kind) and l.kind == "ndarray" and l.payload["shape"] == ():
                 # came back as a 0-d array holding the scalar's value
                 add("numeric-value", cm.data_norm(l.payload["data"]) == ("np0", id(o)))
+                return out
+            if isinstance(l, Kind) and l.kind == "pycomplex":
+                # came back as the python complex number value.item()
+                add("numeric-value", k == "npcomplex" and l.payload.get("tok") == ("item-of", id(o)))
                 return out
             ok = (isinstance(l, Sym) and not z3.is_string(l.t) or isinstance(l, Kind) and l.kind == k) and k != "npcomplex"
             add("numeric", ok)
@@ -737,8 +744,8 @@ C_RSAVES = [Contract(f"{AS}._recursive_save", setup=functools.partial(rsave_setu
 C_RSAVE = C_RSAVES[0]
 
 
-# (kinds whose SAVE already fails at attribute position - npcomplex, rng with non-PCG64 bit generators - are not repeated inside containers)
-CHILD_CASES_W1 = SCALAR_CASES + ARRAY_CASES + TORCH_CASES + ["pylogger", "tlogger", "rng:PCG64"] + ["list:int", "list:str", "tuple:str", "dict", "set:int", "obj"]
+# (complex numpy scalars and generators with a non-PCG64 bit generator are written by their own branches: also inside containers)
+CHILD_CASES_W1 = SCALAR_CASES + ARRAY_CASES + TORCH_CASES + ["pylogger", "tlogger", "rng:PCG64"] + ["list:int", "list:str", "tuple:str", "dict", "set:int", "obj", "npcomplex", "rng:MT19937"]
 # storage classes for wider containers: attr scalar / attr str / path flag / array / sub-group (container, object, tensor) / None
 CHILD_CLASSES = ["int", "str", "none", "path", "npfloat", "ndarray1", "tensor", "list:str", "obj"]
 CHILD_SMALL = ["int", "str", "ndarray1", "list:str"]
@@ -767,6 +774,8 @@ def container_cases():
     out.append(("tuple", ("none", "str", "int", "path") * 3))
     out.append(("list", ("int",) * 11))
     for ct in ("list", "tuple", "dict"):
+        out.append((ct, ("npcomplex", "str")))
+        out.append((ct, ("int", "npcomplex")))
         out.append((ct, ("tensor_nonleaf", "str")))
         out.append((ct, ("int", "tensor_grad", "tensor_nonleaf")))
     return out
@@ -1209,8 +1218,18 @@ def load_setup(ctx):
     lskip, lnames, ltypes = mk_skip(ctx, lform, "load")
     p = "/ghost/target.zip" if store == "zip" else "/ghost/target"
     path = p if pathform == "str" else cm.mk_kind("path", p=StrSym(SV(p)))
-    case = f"{store},{pathform},save-skip={sform},load-skip={lform}"
-    run_real(ctx, f"{AS}.save", [obj, path, "w", store, sskip, 4], label=f"[{case}]save")
+    # history: the path is either fresh, or it already holds ANOTHER object (other attribute names, other persisted skip names)
+    # that was saved and loaded earlier in this process and is now overwritten with mode='o'
+    hist = pick(ctx, "history", ["fresh", "overwritten-after-an-earlier-save-and-load"])
+    case = f"{store},{pathform},save-skip={sform},load-skip={lform}" + ("" if hist == "fresh" else ",overwrite-history")
+    if hist == "fresh":
+        run_real(ctx, f"{AS}.save", [obj, path, "w", store, sskip, 4], label=f"[{case}]save")
+    else:
+        old = mk_obj(Box, [("x", ctx.fresh("x_old", "int")), ("only_in_the_old_file", ctx.fresh("y_old", "int"))])
+        old_skip = [StrSym(z3.String(ctx.fresh_name("old_skip_name")))] if MODE["skip"] else ()
+        run_real(ctx, f"{AS}.save", [old, path, "w", store, old_skip, None], label=f"[{case}]earlier-save")
+        run_real(ctx, f"{SER}:load", [path], label=f"[{case}]earlier-load")
+        run_real(ctx, f"{AS}.save", [obj, path, "o", store, sskip, 4], label=f"[{case}]overwriting-save")
     return NS(path=path, skip=lskip, obj=obj, snames=snames, stypes=stypes, lnames=lnames, ltypes=ltypes, case=case)
 
 
@@ -1594,6 +1613,50 @@ def real_roundtrip(obj, store="zip", compression=4, pathtype="str", mode="w", sk
     return r, []
 
 
+def rt_history(inp):
+    """Overwrite history on the real code, one process, one path:  save(old) -> load -> save(new, mode='o') -> load  (and the same with
+    delete + re-save); every load must return the graph that was saved last.  Problems as (klass, where, message)."""
+    import contextlib
+    import io as _io
+    import pathlib
+    import shutil
+    import warnings
+
+    from quantem.core.io import serialize as ser
+
+    store = inp.get("store", "zip")
+    d = _tmpdir()
+    p = os.path.join(d, "h.zip" if store == "zip" else "h")
+    target = pathlib.Path(p) if inp.get("pathtype") == "Path" else p
+    old = Box(**{f"v{i}": concrete(dsc) for i, dsc in enumerate(inp.get("old_values", ["int#3", "ndarray1", "inner(c=int#7,only_old=str)", "list(str,int)"]))}, only_in_the_old_file=1)
+    new = Box(**{f"v{i}": concrete(dsc) for i, dsc in enumerate(inp["values"])})
+    comp = inp.get("compression", 4)
+    problems = []
+    with warnings.catch_warnings(), contextlib.redirect_stdout(_io.StringIO()):
+        warnings.simplefilter("ignore")
+        try:
+            old.save(target, mode="w", store=store, compression_level=comp, skip=list(inp.get("old_skip", [])))
+            r0 = ser.load(target)
+            equiv_rt(strip_root_meta(r0), filter_expected(old, set(inp.get("old_skip", []))), "first-load", problems)
+            if inp.get("print_file"):
+                ser.print_file(target)
+            if inp.get("delete"):
+                shutil.rmtree(p) if os.path.isdir(p) else os.remove(p)
+                new.save(target, mode="w", store=store, compression_level=comp)
+            else:
+                new.save(target, mode="o", store=store, compression_level=comp)
+            r1 = ser.load(target)
+            late = []
+            equiv_rt(strip_root_meta(r1), new, "load-after-overwrite", late)
+            problems += [("stale load after the file was overwritten: " + k, w, m) for k, w, m in late]
+        except Exception as e:
+            problems.append(("overwrite history raises " + type(e).__name__, "", f"{type(e).__name__}: {str(e)[:150]}"))
+    only = inp.get("only_class")
+    if only:
+        problems = [q for q in problems if q[0] == only]
+    return problems
+
+
 def refine_klass(klass, where, obj, descs):
     """Attach the position (inside a container or not) to exception classes, from the description of the offending value."""
     return klass
@@ -1601,6 +1664,8 @@ def refine_klass(klass, where, obj, descs):
 
 def rt_values(inp):
     """Round trip of Box(v0=.., v1=.., ...) built from grammar terms; one failure class can be selected with inp['only_class']."""
+    if inp.get("resave") == "history":
+        return rt_history(inp)
     descs = inp["values"]
     kw = dict(store=inp.get("store", "zip"), compression=inp.get("compression", 4), pathtype=inp.get("pathtype", "str"), mode=inp.get("mode", "w"))
     problems = []
@@ -2046,6 +2111,13 @@ def run_grammar_bounded(tier, seed):
     # fixed point: save(load(save(x))) reloads to the same graph
     for b in batches[:: (4 if tier == "quick" else 1)]:
         tasks.append((tuple(d for d in b if d not in G_KNOWN_BAD_SAVE), dict(store="zip", compression=4, pathtype="str", mode="w"), True))
+    # overwrite histories in ONE process on ONE path: save(old) -> load -> [print_file] -> save(new, 'o') / delete + save(new) -> load
+    hist_new = ("int#5", "ndarray2", "inner(c=int#1,d=str)", "list(int,str,none)", "str")
+    for st in ("zip", "dir"):
+        for extra in (dict(), dict(delete=True), dict(print_file=True), dict(old_skip=["v0"])):
+            if tier == "quick" and st == "dir" and extra.get("print_file"):
+                continue
+            tasks.append((hist_new, dict(store=st, compression=4, pathtype="Path" if extra.get("delete") else "str", **extra), "history"))
     # kinds whose save is known to raise: one value per round trip
     for d in G_KNOWN_BAD_SAVE + ["list(rng:MT19937)", "dict(k=npcomplex)"]:
         tasks.append(((d,), dict(store="zip", compression=4, pathtype="str", mode="w"), False))
@@ -2076,7 +2148,7 @@ def rt_values_replay(inp):
 
 B_GRAMMAR = Bounded("round trip over the value grammar (real save/load)", run_grammar_bounded,
                     "all kinds at depth 0; containers of width <=3 at depth <=2 over 9 child classes; containers of 11-13 elements; every numpy dtype x 0-d/empty/non-empty shapes; "
-                    "non-leaf requires_grad tensors at depth 0-2; dict keys / attribute names starting with or containing '.' under both stores; both stores x compression None/0/4/9 (x str/Path x w/o: full product in thorough, alternating in quick) on a mixed batch, 4 configurations rotating over the other batches; fixed point on every 4th batch (thorough: all)")
+                    "overwrite histories (save -> load -> overwrite/delete+save -> load, both stores); non-leaf requires_grad tensors at depth 0-2; dict keys / attribute names starting with or containing '.' under both stores; both stores x compression None/0/4/9 (x str/Path x w/o: full product in thorough, alternating in quick) on a mixed batch, 4 configurations rotating over the other batches; fixed point on every 4th batch (thorough: all)")
 B_GRAMMAR.rt = rt_values_replay
 B_SKIP = Bounded("skip lists over a 3-level fixture (real save/load)", run_skip_bounded,
                  "all subsets of <=2 (thorough: <=4) of 7 names (one absent) at save / load / split / both, both stores; 6 type lists; load-time vs save-time comparison")
@@ -2278,7 +2350,12 @@ def rt_load(inp):
         probs = []
         equiv_rt(strip_root_meta(r), filter_expected(fx, set(snames) | set(lnames), stypes), "", probs)
         problems += [f"{k} at {w}: {m}" for k, w, m in probs]
-    return dict(violated=bool(problems), observed="; ".join(problems[:3]) or "ok", expected="load decodes the saved object under user skip names + persisted skip names")
+    # load() after an earlier save + load of ANOTHER object at the same path (the contract's overwrite-history pre-state)
+    for extra in (dict(), dict(print_file=True)):
+        problems += [f"{k} at {w}: {m}" for k, w, m in rt_history(dict(values=["int#5", "ndarray2", "inner(c=int#1,d=str)"], store=inp.get("store", "zip"),
+                                                                    pathtype=inp.get("pathform", "str"), **extra))]
+    return dict(violated=bool(problems), observed="; ".join(problems[:3]) or "ok",
+                expected="load decodes the object saved LAST at the path, under user skip names + persisted skip names")
 
 
 def conc_load(ev):
